@@ -79,13 +79,32 @@ def innerNodeProofHash (H : Bytes → Bytes) (child : Bytes) (b : InnerNode) : B
   if b.leftHash.isEmpty then H (innerEnc child b.rightHash b.height b.size)
   else H (innerEnc b.leftHash child b.height b.size)
 
-/-- `Proof.Verify`. -/
-def Proof.verify (H : Bytes → Bytes) (p : Proof) (key value root : Bytes) : Bool :=
+/-- `Proof.Verify` as it was before /repo commit 5751cd9 (no check on the branch nodes).  Kept only for the
+regression theorems `C03.membership_forgery_old*`; the drivers use `Proof.verify`. -/
+def Proof.verifyOld (H : Bytes → Bytes) (p : Proof) (key value root : Bytes) : Bool :=
   if p.rootHash != root then false
   else
     let leafHash := H (leafEnc key value)
     if leafHash != last32 p.leafHash then false
     else p.inners.foldl (innerNodeProofHash H) leafHash == p.rootHash
+
+/-- the branch check of 5751cd9: `branch.GetHeight() < 1 || branch.GetSize() < 2` ⇒ reject. -/
+def goodBranch (b : InnerNode) : Bool := !(decide (b.height < 1) || decide (b.size < 2))
+
+/-- the loop of `Proof.Verify`: `none` = returned `false` at a branch that fails the check (before hashing it). -/
+def verifyLoop (H : Bytes → Bytes) : Bytes → List InnerNode → Option Bytes
+  | h, [] => some h
+  | h, b :: rest => if goodBranch b then verifyLoop H (innerNodeProofHash H h b) rest else none
+
+/-- `Proof.Verify` (current code). -/
+def Proof.verify (H : Bytes → Bytes) (p : Proof) (key value root : Bytes) : Bool :=
+  if p.rootHash != root then false
+  else
+    let leafHash := H (leafEnc key value)
+    if leafHash != last32 p.leafHash then false
+    else match verifyLoop H leafHash p.inners with
+      | none => false
+      | some h => h == p.rootHash
 
 /-- decode one `InnerNode` (last occurrence of a field wins; other fields / wire types are skipped). -/
 def decodeInnerNode (b : Bytes) : Option InnerNode :=
@@ -111,6 +130,13 @@ def decodeProof (b : Bytes) : Option (List InnerNode) :=
         | none => none
         | some n => some (ns ++ [n])
       | some ns, _ => some ns) (some [])
+
+/-- `VerifyKVPairProof` over the old `Proof.Verify` (regression theorems only). -/
+def verifyKVPairProofOld (H : Bytes → Bytes) (root key value proof : Bytes) : Bool :=
+  let leafHash := H (leafEnc key value)
+  match decodeProof proof with
+  | none => false
+  | some ins => Proof.verifyOld H ⟨leafHash, ins, root⟩ key value root
 
 /-- `ReadProof` + `VerifyKVPairProof`: never panics; undecodable bytes ⇒ `false`. -/
 def verifyKVPairProof (H : Bytes → Bytes) (root key value proof : Bytes) : Bool :=
